@@ -240,21 +240,38 @@ def finite_strain_facets(run):
             seen["arg"] = m
             return w, V
 
-    c = E.Ctx([S.zz(w[2]) >= 0])
-    E.Ctx.cur = c
-    c.reset_path([])
     g = dict(D.__dict__)
     g.update(np=S.NPShim(), la=LAStub)
     f = E.rebind_function(D.finite_strain, g)
     F = symarr("F", (3, 3))
-    val, vec = f(F)
+
+    def body():
+        val_, vec_ = f(F)
+        return val_, vec_, seen["arg"]
+
+    ex = E.explore(body, hyps=[S.zz(w[2]) >= 0], max_paths=16)
+    run.paths += len(ex.paths)
+    if not ex.complete or not ex.paths or ex.unsupported:
+        run.undecided("finite_strain", fn, "exploration incomplete: " + "; ".join(ex.unsupported[:2]))
+        return
+    for pi, p in enumerate(ex.paths):
+        tag = "finite_strain" if len(ex.paths) == 1 else f"finite_strain/path{pi}"
+        Hc = list(ex.ctx.hyps) + list(p.pc)
+        if p.exc is not None:
+            run.prove(f"{tag}/does not raise", fn, Hc, z3.BoolVal(False), replay=_rp_fs(), detail=f"{type(p.exc).__name__}: {p.exc}")
+            continue
+        val, vec, B = p.value
+        prove_entries(run, f"{tag}/decomposes the left Cauchy-Green tensor F F^T", fn, list(ex.ctx.hyps), B, S._matmul(F, F.T), replay=_rp_fs())
+        for k, o in enumerate(p.oblig):
+            run.prove(f"{tag}/safety.{o.name}#{k}", fn, list(ex.ctx.hyps) + list(o.pc), o.goal, structural=True, kind="safety")
+        run.prove(f"{tag}/returns sqrt(largest eigenvalue) - 1", fn, Hc, z3.And((S.zz(val) + 1) * (S.zz(val) + 1) == S.zz(w[2]), S.zz(val) + 1 >= 0), replay=_rp_fs())
+        run.exact(f"{tag}/returns the eigenvector of the largest eigenvalue (last column)", fn, all(z3.eq(S.zz(a), S.zz(b)) for a, b in zip(vec, V[:, 2])), "B_v[:, -1]")
+    c = E.Ctx([S.zz(w[2]) >= 0])
+    c.exploring = True  # the two objectivity runs below only look at the matrix handed to the eigen-solver stub
+    E.Ctx.cur = c
+    c.reset_path([])
+    f(F)
     B = seen["arg"]
-    prove_entries(run, "finite_strain/decomposes the left Cauchy-Green tensor F F^T", fn, list(c.hyps), B, S._matmul(F, F.T), replay=_rp_fs())
-    Hc = list(c.hyps) + list(c.pc)
-    for k, o in enumerate(c.oblig):
-        run.prove(f"finite_strain/safety.{o.name}#{k}", fn, list(c.hyps) + list(o.pc), o.goal, structural=True, kind="safety")
-    run.prove("finite_strain/returns sqrt(largest eigenvalue) - 1", fn, Hc, z3.And((S.zz(val) + 1) * (S.zz(val) + 1) == S.zz(w[2]), S.zz(val) + 1 >= 0), structural=True)
-    run.exact("finite_strain/returns the eigenvector of the largest eigenvalue (last column)", fn, all(z3.eq(S.zz(a), S.zz(b)) for a, b in zip(vec, V[:, 2])), "B_v[:, -1]")
     # objectivity of the matrix handed to the eigen-solver
     Qn, s, hq, q = S.quat_rotation("q")
     c.reset_path([])
@@ -267,8 +284,31 @@ def finite_strain_facets(run):
     E.Ctx.cur = None
 
 
+def nat_finite_strain(seed=0):
+    """Real finite_strain on deformation gradients with stretches above and below one (extension, compaction, mixed)."""
+    from pydrex import diagnostics as D
+
+    rng = np.random.default_rng(seed)
+    msgs = []
+    for k in range(40):
+        if k < 3:
+            F = np.diag([[0.8, 0.75, 0.7], [2.0, 1.0, 0.5], [0.999, 0.5, 0.25]][k])
+        else:
+            F = (np.eye(3) + 0.5 * rng.normal(size=(3, 3))) * float(rng.choice([0.3, 1.0, 2.0]))
+        if abs(np.linalg.det(F)) < 1e-3:
+            continue
+        e, v = D.finite_strain(F)
+        sv = np.linalg.svd(F, compute_uv=False)
+        if abs(e - (sv[0] - 1)) > 1e-9 * max(1, sv[0]):
+            msgs.append(f"finite_strain of F with principal stretches {np.round(sv, 3).tolist()} returns {e:.6f}, not {sv[0] - 1:.6f}")
+    return dict(ok=not msgs, what="; ".join(msgs[:2]))
+
+
 def _rp_fs():
     def replay(model):
+        r0 = native.call("contracts.C13", "nat_finite_strain", dict(seed=0))
+        if not r0["ok"]:
+            return True, dict(checker="contracts.C13:nat_finite_strain", inputs=dict(seed=0), what=r0["what"])
         res = native.call("contracts.C13", "nat_sweep", dict(seed=78, count=40))
         if res["failures"]:
             f0 = res["failures"][0]
@@ -393,7 +433,7 @@ def nat_sweep(seed, count):
                         msgs.append(f"coaxial index {ba:.3f} outside [0,1]")
                     if abs(D.coaxial_index(O2[perm] @ Q.T, a1, a2) - ba) > 1e-8:
                         msgs.append("coaxial index not invariant")
-            F = np.eye(3) + 0.6 * rng.normal(size=(3, 3))
+            F = (np.eye(3) + 0.6 * rng.normal(size=(3, 3))) * float(rng.choice([1.0, 1.0, 0.3, 2.0]))
             if abs(np.linalg.det(F)) > 1e-3:
                 e, v = D.finite_strain(F)
                 sv = np.linalg.svd(F, compute_uv=False)
